@@ -86,6 +86,7 @@ def _pipeline(m, rot, li, fw, sites8, labels, cubic):
             return {'no_events': True}
         raise
     out['states'] = tr.states.tolist()
+    out['pkdtree_disagrees'] = bool(synth.pkdtree_disagrees(lat, sites.frac_coords, np.array(traj.filter('Li').positions).reshape(-1, 3), [0.9]))
     out['events'] = sorted(tuple(int(v) for v in r) for r in tr.events.to_numpy())
     try:
         j = Jumps(tr)
@@ -179,6 +180,9 @@ def oracle(case, out):
         return [('c07/harness-error', f"{out.get('error')}: {out.get('msg')} {out.get('tb', '')[-500:]}")]
     if any(v.get('no_events') for v in out.values() if isinstance(v, dict)) or _guard(case):
         return []
+    if any(v.get('pkdtree_disagrees') for v in out.values() if isinstance(v, dict)):
+        return [('sites/pkdtree-misses-neighbour', 'MDAnalysis PeriodicKDTree (float32) returns a different neighbour set than its own brute-force search on the original or '
+                 f'a transformed copy of this system (lattice {case["m"]}, sites/8 {case["sites8"]}): the stage comparison is skipped')]
     fs = []
     b = out['base']
     ns = len(case['sites8'])
@@ -235,6 +239,8 @@ def oracle(case, out):
 
 def coq_term(case, out):
     if 'base' not in out or any(v.get('no_events') for v in out.values() if isinstance(v, dict)) or _guard(case):
+        return None
+    if any(v.get('pkdtree_disagrees') for v in out.values() if isinstance(v, dict)):
         return None
     b = out['base']
     m = case['m']
